@@ -349,3 +349,40 @@ func (u *verifUpstreamOK) GetChunk(id ChunkID) (*Chunk, error) {
 	u.finish(c)
 	return c.chunk, c.err
 }
+
+// VerifC12_Mixed: a GetChunk and a HasChunk for the same ID through one queue, concurrently,
+// upstream outcomes chosen per call: each caller's result comes from an upstream request of its
+// own kind (an existence answer is never derived from somebody else's read, and vice versa).
+func VerifC12_Mixed() {
+	vPreempt(2)
+	u := &verifUpstream{}
+	q := NewDedupQueue(u)
+	r := &verifRecorder{}
+	id := verifID(0)
+	var wg sync.WaitGroup
+	wg.Add(2)
+	go func() { defer wg.Done(); r.get(q, id) }()
+	go func() { defer wg.Done(); r.has(q, id) }()
+	wg.Wait()
+	vCover("all-callers-returned")
+	vAssert(len(r.recs) == 2, "a caller did not return")
+	verifCheckDedup(r, u)
+}
+
+// VerifC12_MixedWrite: the same through the write queue, whose reads and existence checks are
+// delegated (StoreChunk of the chunk runs concurrently).
+func VerifC12_MixedWrite() {
+	vPreempt(2)
+	u := &verifUpstream{}
+	q := NewWriteDedupQueue(u)
+	r := &verifRecorder{}
+	id := verifID(0)
+	var wg sync.WaitGroup
+	wg.Add(2)
+	go func() { defer wg.Done(); r.get(q, id) }()
+	go func() { defer wg.Done(); r.has(q, id) }()
+	wg.Wait()
+	vCover("all-callers-returned")
+	vAssert(len(r.recs) == 2, "a caller did not return")
+	verifCheckDedup(r, u)
+}
